@@ -13,7 +13,7 @@ CHECKS = {
                 quick=dict(runs=800, hashseeds=[0, 1], wall=150, verify=16),
                 thorough=dict(runs=20000, hashseeds=[0, 1, 2, 3], wall=1500, verify=64)),
     "C35": dict(engine="mcsim",
-                quick=dict(runs=1000, hashseeds=[0, 1], wall=150, verify=16),
+                quick=dict(runs=1000, hashseeds=[0, 1], wall=150, verify=16, jobs=8),
                 thorough=dict(runs=25000, hashseeds=[0, 1, 2, 3], wall=1500, verify=64)),
     "C14": dict(engine="calcsim",
                 quick=dict(runs=240, hashseeds=[0, 1], wall=170, verify=8),
